@@ -293,6 +293,26 @@ static int universe(cs_scenario *sc, const shape_t *sh, int tier)
     return n;
 }
 
+/* the same standards with their ports listed in descending order (the S
+   cells permuted to match): the same physical set, specified differently */
+static void reverse_port_lists(cs_scenario *sc)
+{
+    for (int k = 0; k < sc->nstd; ++k) {
+	cs_std *st = &sc->std[k], old = *st;
+	const int np = st->np;
+	if (np < 2)
+	    continue;
+	for (int i = 0; i < np; ++i) {
+	    st->port[i] = old.port[np - 1 - i];
+	    for (int j = 0; j < np; ++j) {
+		st->sp[i * np + j] = old.sp[(np - 1 - i) * np + (np - 1 - j)];
+		st->sv[i * np + j] = old.sv[(np - 1 - i) * np + (np - 1 - j)];
+	    }
+	}
+	st->null_map = false;
+    }
+}
+
 static int usize[128];
 static long ubase[129];
 
@@ -393,6 +413,7 @@ static void run(int tier, long idx, vf_result *r)
     /* handles start at 3, 8 or 16, by case number */
     static const int fillers[3] = { 0, 5, 13 };
     cs_param_fillers = fillers[idx % 3];
+    const int descending = (int)((idx / 3) & 1);
 
     while (idx >= ubase[shp + 1])
 	++shp;
@@ -401,6 +422,8 @@ static void run(int tier, long idx, vf_result *r)
     unsigned mask = (unsigned)(idx / norders(tier));
     const shape_t *sh = shape(shp);
     int nL = universe(&uni, sh, tier);
+    if (descending)
+	reverse_port_lists(&uni);
     int seq[CS_MAXSTD], n = 0;
     const char *tname = vnacal_type_to_name(sh->type);
 
